@@ -74,7 +74,7 @@ CLAIMS['C04'] = dict(
          "walk reachable from foreach / foreach_const / clear is bounded by a value that covers both geometries or is preceded by the "
          "forced rehash; (E2) foreach, whose callback may erase, forces the rehash first; (E3) the chain walker never touches a node "
          "after its visit returned; (E4) clear re-establishes every constant that init sets (bucket.cst exempt, reasoned) and frees the "
-         "array exactly once; (E5) after a non-zero visit no further visit happens and that value is returned (path-sensitive); (E6) resize empties and stamps exactly the buckets from the current count (read after the forced rehash) up to the requested count; (E7) a bucket walk is left only when its index reaches the bound or a visit returned non-zero. That "
+         "array exactly once; (E5) after a non-zero visit no further visit happens and that value is returned (path-sensitive); (E6) resize empties and stamps exactly the buckets from the current count (read after the forced rehash) up to the requested count; (E7) a bucket walk is left only when its index reaches the bound or a visit returned non-zero; (E4, order) clear resets no table field before the walk; (E8) the caller's visit / clear function is handed the element (node minus offset), never the chain node. That "
          "the relocation arithmetic puts every node in exactly one chain is NOT decided.",
     technique="role discovery by effect + pending-aware value classification over branch facts + typestate (stop value) + init/clear sibling agreement")
 
@@ -94,7 +94,7 @@ CLAIMS['C03'] = dict(
          "otherwise (path-sensitive, inlined); (L3) the cleaner relocates each node by its own key with the pending geometry, detaches "
          "the chain first and marks the bucket clean on every dirty path (path-sensitive: an empty dirty bucket too); (L4) the element count moves exactly with chain insertions "
          "and splices; (L5) resize forces the old rehash, then flips the clean bit, then records the pending geometry on every path (a flip is never left without a pending rehash), adopts a geometry without sweeping only on the very first resize, the added buckets are exactly [count read after the forced rehash, requested count), new buckets "
-         "empty and clean; (L6) find calls the caller's visit only under key equality and records a candidate as its result only once the visit accepted it (or none was given); (L7) the bucket-array byte size cannot wrap; (L8) the bucket array is only grown, or cut to the (effective) bucket count after the forced rehash; (L9) swap exchanges every member (an exchange skipped on some path only where the members are known equal); (L10) the sweep index is advanced only past a bucket that was just cleaned or is known to carry the table's clean stamp; (L11) a key is never narrowed; (L12) every store / effectful call made by the assertion-enabled build is also made by the NDEBUG build (no work inside assert()). "
+         "empty and clean; (L6) find calls the caller's visit only under key equality and records a candidate as its result only once the visit accepted it (or none was given); (L7) the bucket-array byte size cannot wrap; (L8) the bucket array is only grown, or cut to the (effective) bucket count after the forced rehash; (L9) swap exchanges every member (an exchange skipped on some path only where the members are known equal); (L10) the sweep index is advanced only past a bucket that was just cleaned or is known to carry the table's clean stamp, and is never set to anything but 0, its own value + 1 or a local copy advanced under the same condition; (L11) a key is never narrowed; (L12) every store / effectful call made by the assertion-enabled build is also made by the NDEBUG build (no work inside assert()). "
          "That the sweep's arithmetic visits every bucket, chain contents over histories, are NOT decided.",
     technique="role discovery by effect + path-sensitive typestate over inlined LLVM IR + dominance/ordering rules + no-wrap obligations")
 
@@ -103,7 +103,7 @@ CLAIMS['C12'] = dict(
          "re-anchors both lists to their own sentinel in the empty and the non-empty case, reading the links after the bitwise swap; "
          "(D3) concat splices only distinct lists and only a source known to be non-empty, adds the size once and re-initialises the source; (D4) foreach binds next for FWD "
          "and prev for REV, never touches a node after its visit, and propagates the first non-zero result (path-sensitive); (D5) "
-         "size is adjusted exactly once per primitive; (D6) reverse links its two cursors directly only under the adjacency test; (D7) swap exchanges every member; (D8) push_front / push_back / insert pass the anchor matching the direction in which the link primitive links; (D9) a visiting walk ends at the head sentinel, never at an element; (D10) callbacks get the context supplied with them; (D11) size - k values (pair counts, loop bounds) are computed only where size >= k is known; (D8, delegation) an entry point that delegates to insert-after-element does not pass an untested result of a function documented to return NULL; (D12) every store / effectful call made by the assertion-enabled build is also made by the NDEBUG build (no work inside assert()). The link correctness of reverse / sort / merge and equality with a reference "
+         "size is adjusted exactly once on every path that changes a link and not at all on a path that changes none; (D6) reverse links its two cursors directly only under the adjacency test; (D7) swap exchanges every member; (D8) push_front / push_back / insert pass the anchor matching the direction in which the link primitive links; (D9) a visiting walk ends at the head sentinel, never at an element; (D10) callbacks get the context supplied with them and their int result is never narrowed; (D11) size - k values (pair counts, loop bounds) are computed only where size >= k is known; (D8, delegation) an entry point that delegates to insert-after-element does not pass an untested result of a function documented to return NULL; (D12) every store / effectful call made by the assertion-enabled build is also made by the NDEBUG build (no work inside assert()). The link correctness of reverse / sort / merge and equality with a reference "
          "sequence are NOT decided.",
     technique="documentation-contract rule (AST + IR return values) + dominating facts + typestate over LLVM IR")
 CLAIMS['C13'] = dict(
@@ -111,7 +111,7 @@ CLAIMS['C13'] = dict(
          "function that writes a node link also maintains the same list's tail pointer (or re-initialises that list); (N3) swap "
          "re-anchors an empty list's tail to its own head link, reading the count after the swap; (N4) foreach reads the successor "
          "before the visit and propagates the first non-zero result; (N5) count is adjusted exactly once per primitive, concat adds "
-         "once and re-initialises the source; (N6) the tail is only ever set to the head link, another tail, or a node known to exist; (N7) swap exchanges every member; (N8) push_front / push_back / insert_after pass the anchor after which the primitive links; (N9) callbacks get the context supplied with them; (N10) the unlink primitive re-points the tail at the predecessor when it removes the last node; concat re-points the destination tail only for a non-empty source; (N8, delegation) push_back/push_front delegating to insert_after do not pass an untested result of front()/back() (NULL for an empty list); (N11) every store / effectful call made by the assertion-enabled build is also made by the NDEBUG build (no work inside assert()). That reverse / sort / merge produce the right order is NOT decided.",
+         "once and re-initialises the source; (N6) the tail is only ever set to the head link, another tail, or a node known to exist; (N7) swap exchanges every member; (N8) push_front / push_back / insert_after pass the anchor after which the primitive links; (N9) callbacks get the context supplied with them and their int result is never narrowed; (N10) the unlink primitive re-points the tail at the predecessor when it removes the last node; concat re-points the destination tail only for a non-empty source; (N8, delegation) push_back/push_front delegating to insert_after do not pass an untested result of front()/back() (NULL for an empty list); (N11) every store / effectful call made by the assertion-enabled build is also made by the NDEBUG build (no work inside assert()). That reverse / sort / merge produce the right order is NOT decided.",
     technique="documentation-contract rule (AST + IR return values) + field-effect rule + dominating facts + typestate over LLVM IR")
 
 CLAIMS['C01'] = dict(
@@ -121,7 +121,7 @@ CLAIMS['C01'] = dict(
          "foreach binds (left,right) for FWD and (right,left) for REV and returns the walker's result, the adapter forwards "
          "element/order/result unchanged; (W3) size is written only as 0 or size+/-1, exactly once per insert/unlink path; (W4) insert "
          "and find agree on comparison argument order and descent direction; (W5) erase (lookup and unlink routines recognised by effect; path-sensitive) unlinks exactly the node the lookup returned, exactly once and only "
-         "when non-NULL, and returns it, NULL otherwise; (W6) a non-NULL find result is the node that compared equal; (W7) insert links the new node only into a slot just read as NULL; (W8) swap exchanges every member of the tree objects (one block copy or member by member); (W9) comparison / visit calls get the context stored beside the function; (W4, slot choice) every child slot insert links into or descends through is chosen under the matching sign of a comparison; (W10) red-black erase leaves the node at which its repair stops black on every path and (W11) red-black insert ends by colouring the root black (a red root makes the next insert dereference a missing grandparent: the tree can no longer hold what is inserted); (W12) every store / effectful call made by the assertion-enabled build is also made by the NDEBUG build (no work inside assert()). That relinking in the two-child "
+         "when non-NULL, and returns it, NULL otherwise; (W6) a non-NULL find result is the node that compared equal, and find writes the documented parent out-parameter on every path on which it is not NULL; (W7) insert links the new node only into a slot just read as NULL; (W8) swap exchanges every member of the tree objects (one block copy or member by member); (W9) comparison / visit calls get the context stored beside the function and their int result is never narrowed; (W4, slot choice) every child slot insert links into or descends through is chosen under the matching sign of a comparison; (W10) red-black erase leaves the node at which its repair stops black on every path, skips the repair only where the removed node is known to be red, and (W11) red-black insert ends by colouring the root black (a red root makes the next insert dereference a missing grandparent: the tree can no longer hold what is inserted); (W12) every store / effectful call made by the assertion-enabled build is also made by the NDEBUG build (no work inside assert()). That relinking in the two-child "
          "erase case and in rotations preserves the multiset and the order is NOT decided (heap-shape reasoning).",
     technique="path-sensitive typestate over the recursive walker + sibling agreement + dominating facts over LLVM IR")
 CLAIMS['C15'] = dict(
@@ -130,7 +130,7 @@ CLAIMS['C15'] = dict(
          "clear adapters; the map node is freed only after the callback, which sees a detached iterator); (K2) every node gets exactly "
          "one hand-off (walker protocol; the tree adapter calls back exactly for POST/LEAF and returns 0 for every order; list loops "
          "hand off once per iteration); (K3) clear re-establishes the initial state on every path and changes nothing else of the tree object (path-sensitive for the tree; trees incl. rbtree/heap/map through their "
-         "wrappers, slist via the initialiser's stores, dlist via a drain loop that exits only under size == 0).",
+         "wrappers, which neither store into the container themselves nor hand it to a function that does; slist via the initialiser's stores, dlist via a drain loop that exits only under size == 0).",
     technique="path-sensitive typestate (hand-off state, walker protocol) + dominance + init/clear sibling agreement over LLVM IR")
 
 CLAIMS['C08'] = dict(
@@ -145,7 +145,7 @@ CLAIMS['C11'] = dict(
     text="Thin by design: decides only clauses with a type- or shape-level necessary condition: (X1) no size_t count/index is "
          "narrowed in the raw-array routines; (X2) for every selector value - each enumerator and values outside the enumeration - exactly one sort of the caller's array is reached, "
          "a re-dispatch landing on a directly handled selector (path-sensitive, independent of switch / if-chain form); (X3) the sift-down reads computed child elements only under child < count; "
-         "(X4) linear find returns the ascending loop's index under cmp == 0, else -1; (X5) the quicksort pivot index is proven below count per alternative, or refuted by folding the index expression over rand()'s range (no verdict otherwise); (X6) every comparison call gets the context supplied with the function; (X7) every store / effectful call made by the assertion-enabled build is also made by the NDEBUG build (no work inside assert()). (X8) a binary-search bound stepped down by one is either compared as a signed value or stepped only where known non-zero. 'Sorted permutation', 'search finds iff "
+         "(X4) linear find returns the ascending loop's index under cmp == 0, else -1; (X5) the quicksort pivot index is proven below count per alternative, or refuted by folding the index expression over rand()'s range (no verdict otherwise); (X6) every comparison call gets the context supplied with the function and its int result is never narrowed; (X7) every store / effectful call made by the assertion-enabled build is also made by the NDEBUG build (no work inside assert()). (X8) a binary-search bound stepped down by one is either compared as a signed value or stepped only where known non-zero. 'Sorted permutation', 'search finds iff "
          "present' and partition bounds are NOT decided.",
     technique="taint + truncation rule, switch coverage, dominating facts over LLVM IR; enumerators from the AST")
 
